@@ -258,6 +258,8 @@ class HttpPeer:
                 data = data[: int(cut)]
                 keep = False
                 w.faults_fired["resp:cut"] += 1
+                if r is not None:
+                    chan.tags["unclean_after"] = r.idx  # this exchange can no longer end cleanly on this connection
             pre = spec.get("interim")  # e.g. a 100/103 before the final response
             if pre:
                 for st in pre:
@@ -278,11 +280,15 @@ class HttpPeer:
                 w.faults_fired["resp:split_delay"] += 1
             else:
                 chan.peer_push(data, delay)
+            if cut is not None and isinstance(getattr(chan, "tags", None), dict) and "pushed" in chan.tags:
+                chan.tags["unclean_at_byte"] = chan.tags["pushed"]  # everything up to here belongs to an exchange that was cut short
             stray = spec.get("stray")
             if stray:
                 w.faults_fired["resp:stray"] += 1
                 sd = float(spec.get("stray_delay", 0.0))
                 chan.peer_push(_stray_bytes(stray), delay + sd, stray=True)
+                if spec.get("stray2"):  # a second batch of unsolicited bytes, later than the first
+                    chan.peer_push(_stray_bytes(spec["stray2"]), delay + sd + float(spec.get("stray2_delay", 1.0)), stray=True)
             end = spec.get("end")
             if end is None:
                 end = "keep" if keep else "eof"
